@@ -20,7 +20,7 @@ import (
 // C12 — damaged bytes are detected or harmless, never served as data and
 // never a panic.
 
-const c12Rule = "small databases (3..12 generated ops incl. tombstones, committed batches, sometimes a multi-chunk value, a rotated file, a pending or adopted merge with hint file), closed cleanly; faults on *.data and *.hint files: EVERY single-bit flip of every byte of files <= 2 KiB (sampled bits of larger files), generated multi-byte overwrites, truncation to every length of small files, garbage appended; two injection modes: before Open (recovery/hint-load path) and under a live database (read path; truncations there at record and block boundaries, alternately with poisoned block buffers and with buffers primed with a validly checksummed decoy of the block that is cut); oracle: no panic anywhere; every key reads as its last written value or fails with an error (key-not-found for a live key, an older value, or a value for a deleted key count as wrong data); ListKeys/Fold agree with the reference map unless an error is returned; tolerated extra outcome for damage injected before Open into the NEWEST data file only: the dump equals the model after the leading mutations that lie entirely before the damaged byte (an interrupted append is indistinguishable from it, cf. C03); non-trivial = the fault lands inside the extent of a record; distinct = (database hash, mode, file, fault)"
+const c12Rule = "small databases (3..12 generated ops incl. tombstones, committed batches, sometimes a multi-chunk value, a rotated file, a pending or adopted merge with hint file), closed cleanly; faults on *.data and *.hint files: EVERY single-bit flip of every byte of files <= 2 KiB (sampled bits of larger files), generated multi-byte overwrites, zero fill from every record start and block start, truncation to every length of small files, garbage appended; two injection modes: before Open (recovery/hint-load path) and under a live database (read path; truncations there at record and block boundaries, alternately with poisoned block buffers and with buffers primed with a validly checksummed decoy of the block that is cut); oracle: no panic anywhere; every key reads as its last written value or fails with an error (key-not-found for a live key, an older value, or a value for a deleted key count as wrong data); ListKeys/Fold agree with the reference map unless an error is returned; tolerated extra outcome for damage injected before Open into the NEWEST data file only, and only if the fault is a truncation or the damaged file ends in an INCOMPLETE record when read chunk by chunk (header cut, stated length past the end of the file, or the file ends after a First/Middle chunk): the dump equals the model after the leading mutations that lie entirely before the damaged byte (an interrupted append is indistinguishable from it, cf. C03); non-trivial = the fault lands inside the extent of a record; distinct = (database hash, mode, file, fault)"
 
 var c12Profile = &kvh.GenProfile{
 	Weights: map[string]int{
@@ -35,7 +35,7 @@ var c12Profile = &kvh.GenProfile{
 type c12Fault struct {
 	Mode string `json:"mode"` // before-open | live
 	File string `json:"file"` // relative to the image root, e.g. db/000000000.data
-	Kind string `json:"kind"` // flip | overwrite | truncate | append
+	Kind string `json:"kind"` // flip | overwrite | zero | truncate | append
 	Off  int64  `json:"off"`
 	Bit  int    `json:"bit,omitempty"`
 	Len  int    `json:"len,omitempty"`
@@ -258,6 +258,10 @@ func damageBytes(orig []byte, f *c12Fault) []byte {
 			}
 			b[f.Off+int64(i)] = g[i]
 		}
+	case "zero":
+		for i := 0; i < f.Len && f.Off+int64(i) < int64(len(b)); i++ {
+			b[f.Off+int64(i)] = 0
+		}
 	case "truncate":
 		if f.Off < int64(len(b)) {
 			b = b[:f.Off]
@@ -283,10 +287,61 @@ func (d *c12DB) inRecord(f *c12Fault) bool {
 	return false
 }
 
+// c12TailClass reads the bytes of a data file chunk by chunk, as the format is stated, up to the first chunk
+// that is not intact and says what is wrong there: "incomplete" - the file ends inside the chunk (its header is
+// cut, its stated length passes the end of the file, or the file ends after a First/Middle chunk), which is what an
+// interrupted append leaves behind; "corrupt" - the chunk is all there but its checksum does not match (or it is
+// cut short by a block that is not the last one); "clean" - every chunk is intact.
+func c12TailClass(b []byte) string {
+	n := int64(len(b))
+	blk, off, cnt := int64(0), int64(0), 0
+	for {
+		base := blk * kvh.BlockSize
+		if base >= n || off >= min(n-base, kvh.BlockSize) {
+			if cnt > 0 {
+				return "incomplete"
+			}
+			return "clean"
+		}
+		size := min(n-base, kvh.BlockSize)
+		avail := b[base+off : base+size]
+		short := "corrupt"
+		if base+size >= n {
+			short = "incomplete"
+		}
+		if len(avail) < kvh.ChunkHeader {
+			return short
+		}
+		end := int64(kvh.ChunkHeader) + int64(binary.LittleEndian.Uint16(avail[4:6]))
+		if end > int64(len(avail)) {
+			return short
+		}
+		if binary.LittleEndian.Uint32(avail[:4]) != crc32.ChecksumIEEE(avail[4:end]) {
+			return "corrupt"
+		}
+		cnt++
+		if typ := avail[6]; typ == 0 || typ == 3 { // Full, Last
+			off += end
+			if off+kvh.ChunkHeader >= kvh.BlockSize {
+				blk, off = blk+1, 0
+			}
+			cnt = 0
+			continue
+		}
+		blk, off = blk+1, 0
+	}
+}
+
 // toleratedPrefix returns j such that S_j is the tolerated outcome for damage
 // at offset off of the newest data file (-1 if no tolerance applies).
 func (d *c12DB) toleratedPrefix(f *c12Fault) int {
 	if f.Mode != "before-open" || f.File != d.newest {
+		return -1
+	}
+	// only an image that ends in an INCOMPLETE record can be taken for an interrupted append; a complete chunk
+	// with a wrong checksum (zeroed or overwritten bytes with valid records behind them) cannot
+	// (a truncation IS what an interrupted append leaves, wherever it cuts)
+	if f.Kind != "truncate" && c12TailClass(d.damaged(f)) != "incomplete" {
 		return -1
 	}
 	j := 0
@@ -577,6 +632,25 @@ func (d *c12DB) faults(seed uint64, thorough bool) []*c12Fault {
 				for off := int64(seed % 997); off < n; off += stride {
 					add(off)
 				}
+			}
+			// zero fill (a lost page, a hole): from every record start and every block start, 7 bytes / 64 bytes / to the
+			// end of the record
+			zs := map[[2]int64]bool{}
+			for _, sp := range d.recEnds[rel] {
+				zs[[2]int64{sp.start, 7}], zs[[2]int64{sp.start, 64}], zs[[2]int64{sp.start, sp.end - sp.start}] = true, true, true
+			}
+			for bo := int64(0); bo < n; bo += kvh.BlockSize {
+				zs[[2]int64{bo, 7}], zs[[2]int64{bo, 4096}] = true, true
+			}
+			var zl [][2]int64
+			for z := range zs {
+				if z[0] < n && z[1] > 0 {
+					zl = append(zl, z)
+				}
+			}
+			sort.Slice(zl, func(i, j int) bool { return zl[i][0] < zl[j][0] || zl[i][0] == zl[j][0] && zl[i][1] < zl[j][1] })
+			for _, z := range zl {
+				out = append(out, &c12Fault{Mode: mode, File: rel, Kind: "zero", Off: z[0], Len: int(z[1])})
 			}
 			// multi-byte overwrites
 			for i := uint64(0); i < 24 && n > 0; i++ {
